@@ -171,7 +171,7 @@ static void scen_c11(int histories, int maxops) {
                 }
                 break; }
             case 20: if (chance(30)) c11_gap_drill(&b); break;
-            case 22: case 23: c11o_save_new(&b); break;
+            case 22: case 23: if (chance(25)) c11o_save_seq(&b); else c11o_save_new(&b); break;
             case 24: case 25: case 26: c11o_load(&b); break;
             case 27: c11o_event(&b); break;
             default: c11_blob_mutations(&b, 1); break;
